@@ -87,13 +87,22 @@ def _sig(h, default):
     return "back-to-back-header-missed" if h is not None and h.get("b2b") else default
 
 
-def attribute_b2b(res, headers):
-    """Once a header that starts right behind the previous one has been lost, model and DUT diverge for the rest of
-    the history; every failure of such a history is attributed to that (deterministic) shape."""
-    if res is not None and not res.ok and res.signature not in ("source-malformed", "source-not-held-while-stalled"):
-        if any(h.get("b2b") and h.get("verdict") in ("accept", "bad") for h in headers):
-            res.signature = "back-to-back-header-missed"
-    return res
+def check_recovery(trace, seq_errors, t0, t1):
+    """recovery_required is the observable effect of a header being *considered* and rejected for its sequence
+    number: it must fire for exactly the intact wrong-sequence headers seen while not ignoring (the cycle after
+    their last word) and never for an ignored header."""
+    got = [t for t in range(t0, t1) if trace[t].recov]
+    want = [h["end"] + 1 for h in seq_errors if t0 <= h["end"] + 1 < t1]
+    if got != want:
+        extra = [t for t in got if t not in want]
+        if extra:
+            return fail(f"recovery_required asserted in cycle {extra[0]} although no intact wrong-sequence header was "
+                        f"being considered there (expected cycles {want}): an ignored/corrupted header was not ignored",
+                        signature="recovery-for-ignored-header")
+        miss = [t for t in want if t not in got]
+        return fail(f"intact header with an unexpected sequence number (checked in cycle {miss[0]}) did not raise "
+                    f"recovery_required", signature="wrong-sequence-not-reported")
+    return None
 
 
 def judge_u0(log, trace, headers, accepted, lbad_triggers, cmds, t0, t1, *, buffers=4, first_lcrd=0, skip_lgood=1,
@@ -179,7 +188,7 @@ def judge_u0(log, trace, headers, accepted, lbad_triggers, cmds, t0, t1, *, buff
 
 class HeaderRxSub(Sub):
     name = "hprx"
-    budget = {"quick": 3000, "thorough": 50000}
+    budget = {"quick": 6000, "thorough": 100000}
     shrink_budget = 500
     rule = ("legal link-partner BFM in closed loop with HeaderPacketReceiver(buffer_count=4): 1..24 partner actions "
             "(headers with random content and not-valid gaps, idle, not-valid words), wire noise per transmission "
@@ -219,10 +228,13 @@ class HeaderRxSub(Sub):
                         f"({cmds[0]['sub']}), not the LGOOD advertisement", signature="no-initial-advertisement")
         res = judge_u0(log, trace, headers, model.accepted, model.lbad_triggers, cmds, 0, n, complete=finished)
         if res is not None:
-            return attribute_b2b(res, headers)
+            return res
+        res = check_recovery(trace, model.seq_errors, 0, n)
+        if res is not None:
+            return res
         if not finished:
-            return attribute_b2b(fail(f"history did not drain within {max_cycles} cycles (partner phase {drv.phase}, "
-                        f"unacked {[s for s, _ in drv.unacked]})", signature="no-progress"), headers)
+            return fail(f"history did not drain within {max_cycles} cycles (partner phase {drv.phase}, "
+                        f"unacked {[s for s, _ in drv.unacked]})", signature="no-progress")
         # classification
         labels = set()
         acc = len(model.accepted)
